@@ -28,7 +28,7 @@ package corazawaf
 
 //@ define ReaderInv(b *bodyBufferReader) bool := b.br != nil ==> (BufInv(b.br) && 0 <= b.pos && b.pos <= len(bufContent(b.br)))
 
-//@ func (*bodyBufferReader).Read props C10,C05,C07
+//@ func (*bodyBufferReader).Read props C10,C05,C07,C20
 //@   requires ReaderInv(b)
 //@   modifies b.pos, elems(p)
 //@   ensures closed: old(b.br) == nil ==> n == 0 && !isnil(err) && str(p) == old(str(p))
@@ -37,6 +37,10 @@ package corazawaf
 //@   ensures bytes: b.br != nil ==> (forall k int :: 0 <= k && k < n ==> p[k] == bufContent(b.br)[old(b.pos) + k])
 //@   ensures mem: b.br != nil && b.br.writer == nil ==> n == ite(len(p) <= len(bufContent(b.br)) - old(b.pos), len(p), len(bufContent(b.br)) - old(b.pos))
 //@   ensures eof: b.br != nil && isnil(err) && len(p) > 0 ==> n > 0
+// a failing read of the spill file is never turned into a clean result (C20): in file mode a short read carries the
+// file's error, and the end-of-body indication is given only when every stored byte has been delivered
+//@   ensures fileShortReadFlagged: b.br != nil && b.br.writer != nil && n < len(p) ==> !isnil(err)
+//@   ensures eofOnlyAtEnd: b.br != nil && err == io.EOF && len(p) > 0 ==> b.pos >= len(bufContent(b.br))
 //@   ensures ReaderInv(b)
 
 //@ func (*bodyBufferReader).Close props C05,C10
@@ -92,7 +96,7 @@ package corazawaf
 //@   modifies nothing
 //@   ensures result == (tx.RuleEngine == types.RuleEngineOff)
 
-//@ func (*Transaction).Interrupt props C02
+//@ func (*Transaction).Interrupt props C02,C19
 //@   modifies tx.interruption, tx.detectionOnlyInterruption
 //@   ensures final: old(tx.interruption) != nil ==> tx.interruption == old(tx.interruption)
 //@   ensures on: tx.RuleEngine == types.RuleEngineOn && old(tx.interruption) == nil ==> tx.interruption == interruption
@@ -232,7 +236,7 @@ package corazawaf
 // Every field of Transaction is assigned by newTransaction on every path (the list of fields is enumerated from the
 // struct type, so a new field that is not reset is a failing obligation pins/<field>). The buffers, the variables
 // and the transformation cache are created for a fresh object and otherwise rely on what Close guarantees.
-//@ func (*WAF).newTransaction props C05
+//@ func (*WAF).newTransaction props C05,C19
 //@   pins tx except requestBodyBuffer,responseBodyBuffer,variables,transformationCache
 //@   ensures result != nil && result.interruption == nil && result.detectionOnlyInterruption == nil && result.lastPhase == 0
 //@   ensures result.Skip == 0 && result.SkipAfter == "" && result.AllowType == 0 && !result.Capture && !result.audit
@@ -275,6 +279,14 @@ package corazawaf
 //@     invariant isnil(kept) || fresh(kept)
 //@     invariant forall j int :: 0 <= j && j < len(kept) ==> (kept[j].ID_ < start || kept[j].ID_ > end)
 //@     invariant forall i int :: 0 <= i && i < len(rg.rules) ==> rg.rules[i].ID_ == old(rg.rules[i].ID_)
+// the filter, one rule at a time: every rule is looked at (no early exit, whatever the order of the ids), a rule
+// outside the range becomes the new last kept rule, a rule inside it changes nothing, earlier kept rules stay
+//@     step everyRule: rangeindex == prev(rangeindex) + 1
+//@     step keepOutside: (rg.rules[rangeindex].ID_ < start || rg.rules[rangeindex].ID_ > end) ==>
+//@         len(kept) == len(prev(kept)) + 1 && kept[len(kept) - 1].ID_ == rg.rules[rangeindex].ID_
+//@     step dropInside: !(rg.rules[rangeindex].ID_ < start || rg.rules[rangeindex].ID_ > end) ==> len(kept) == len(prev(kept))
+//@     exits noEarlyExit: false
+//@     after allSeen: rangeindex == len(rg.rules) - 1
 
 //@ func (*RuleGroup).DeleteByMsg props C17,C07
 //@   ensures noneSelected: forall j int :: 0 <= j && j < len(rg.rules) ==> (isnil(rg.rules[j].Msg) || macroStr(rg.rules[j].Msg) != msg)
@@ -283,6 +295,12 @@ package corazawaf
 //@     invariant -1 <= rangeindex && rangeindex < len(rg.rules) && rg.rules == old(rg.rules) && len(kept) <= rangeindex + 1
 //@     invariant isnil(kept) || fresh(kept)
 //@     invariant forall j int :: 0 <= j && j < len(kept) ==> (isnil(kept[j].Msg) || macroStr(kept[j].Msg) != msg)
+//@     step everyRule: rangeindex == prev(rangeindex) + 1
+//@     step keepOthers: (isnil(rg.rules[rangeindex].Msg) || macroStr(rg.rules[rangeindex].Msg) != msg) ==>
+//@         len(kept) == len(prev(kept)) + 1 && kept[len(kept) - 1].ID_ == rg.rules[rangeindex].ID_ && kept[len(kept) - 1].Msg == rg.rules[rangeindex].Msg
+//@     step dropSelected: !(isnil(rg.rules[rangeindex].Msg) || macroStr(rg.rules[rangeindex].Msg) != msg) ==> len(kept) == len(prev(kept))
+//@     exits noEarlyExit: false
+//@     after allSeen: rangeindex == len(rg.rules) - 1
 
 // DeleteByID removes the first rule with the id (ids are unique in a group) and keeps the order of the others.
 //@ func (*RuleGroup).DeleteByID props C17,C07
@@ -415,7 +433,7 @@ package corazawaf
 //@ define tkeyOf(k transformationKey, akey string, aval string, avar variables.RuleVariable, idx int, tid int) bool :=
 //@     k.argKey == strdata(akey) && k.argIndex == idx && k.argValue == strdata(aval) && k.argValueLen == len(aval) &&
 //@     k.argVariable == avar && k.transformationsID == tid
-//@ func (*Rule).transformArg props C12,C04 nosafety
+//@ func (*Rule).transformArg props C12,C04,C01 nosafety
 //@   modifies inferred
 //@   lemma keyDeterminesValue: forall k transformationKey, ak1 string, av1 string, v1 variables.RuleVariable, i1 int, t1 int,
 //@       ak2 string, av2 string, v2 variables.RuleVariable, i2 int, t2 int ::
@@ -427,6 +445,13 @@ package corazawaf
 //@   at "cache[key] = transformationValue" requires storeKey: tkeyOf(key, mdKey(arg), mdValue(arg), mdVariable(arg), argIdx, r.transformationPrefixIDs[i])
 //@   at "cache[key] = transformationValue" requires neverForVolatile: !volatileVar(mdVariable(arg))
 //@   at "cached, ok := cache[key]" requires neverReadForVolatile: !volatileVar(mdVariable(arg))
+// the cached path computes the same chain as executeTransformations (C01: the operator sees the value transformed by
+// the rule's chain): a step that succeeds replaces the running value by its output, a step that fails leaves it and
+// adds exactly one error
+//@   loop 2
+//@     step advance: !tfFails(r.transformations[prev(i)].Function, prev(value)) ==> value == tfOut(r.transformations[prev(i)].Function, prev(value)) && len(errs) == len(prev(errs))
+//@     step keep: tfFails(r.transformations[prev(i)].Function, prev(value)) ==> value == prev(value) && len(errs) == len(prev(errs)) + 1
+//@     step next: i == prev(i) + 1
 // ==== END C12 transformation cache section ====
 // ==== BEGIN C03 request-data section ====
 // Request data handed to a transaction (query arguments, headers, cookies) must be visible in its collection under
